@@ -15,6 +15,12 @@ func init() {
 func VerifC10TornRead() {
 	w := vNewWorld(vndParam("cap"), vInt64, vndParam("fam"), Options{})
 	r0, r1 := w.off[0], w.off[1]
+	if vndParam("computed") == 1 {
+		// column a feeds a trigger and a bitmap index: the commit applies them in a second pass over
+		// a's buffer, before it turns to column b
+		w.c.CreateTrigger("trg", "a", func(Reader) {})
+		w.c.CreateIndex("idx", "a", func(r Reader) bool { return true })
+	}
 	C := vndU64("C")
 	x0, x1 := vndU64("x"), vndU64("x")
 	set := func(off uint32, a uint64) {
